@@ -51,6 +51,7 @@ long irsym_log_count(long run, long op){ long n = 0; for(auto& e : gLogs[run]){ 
 void irsym_log_clear(long run){ gLogs[run].clear(); }
 long irsym_is_symbolic_run(void){ return 0; }
 void irsym_omp_mode(long){}
+void irsym_omp_worker_local(const void*, long){}
 }
 int main(int argc, char** argv){
     if(argc < 3){ fprintf(stderr, "usage\n"); return 2; }
